@@ -29,7 +29,7 @@ def siteName : Site → String
   | .rDataReader => "rDataReader" | .rFragTable => "rFragTable" | .rHierarchy => "rHierarchy" | .rStat => "rStat"
   | .rCatStream => "rCatStream" | .rCatStdout => "rCatStdout" | .rSplice i => s!"rSplice:{i}" | .rTreeSort => "rTreeSort"
   | .rMkdirP => "rMkdirP" | .rChdir => "rChdir" | .rRestore => "rRestore" | .rFill => "rFill" | .rAttribs => "rAttribs"
-  | .rDescribe => "rDescribe" | .rDumpXattrs => "rDumpXattrs"
+  | .rDescribe => "rDescribe" | .rDumpXattrs => "rDumpXattrs" | .rStdoutFlush => "rStdoutFlush"
 
 def msgName : Msg → String
   | .waiting => "waiting" | .inodes => "inodes" | .fragtbl => "fragtbl" | .exporttbl => "exporttbl"
@@ -73,7 +73,8 @@ def parseRCfg (tool flags nf : String) : Option RCfg := do
   else none
 
 def parseVariant (s : String) : Option Variant :=
-  if s = "cur" then some .current else if s = "fix" then some .fixed else if s = "snap" then some .snapshot else none
+  if s = "cur" then some .current else if s = "fix" then some .fixed else if s = "old" then some .beforeRealpath
+  else if s = "snap" then some .snapshot else none
 
 /-- a fault spec is `-`, or a comma separated list of site names / `@position` -/
 def parseFaults (prog : List Site) (s : String) : Option (List Nat) :=
@@ -99,7 +100,7 @@ def showResult (v : Variant) (r : Result) : String :=
   s!"status={r.status} out={outName r.out} cleanup={if r.cleanupReached then 1 else 0} finish={if r.finishOk then 1 else 0} failed={match r.trace.failed with | some s => siteName s | none => "-"} swallowed={joinOr (r.trace.swallowed.map siteName)} msgs={joinOr (r.trace.msgs.map msgName)} nops={r.trace.ops.length} damaged={if dmg then 1 else 0} diag={if diag then 1 else 0} unlink={ul} cwd={if r.trace.cwd == .pack then "pack" else "start"} ran={joinOr (r.trace.ran.map siteName)}"
 
 def showRResult (r : RResult) : String :=
-  s!"status={r.status} failed={match r.trace.failed with | some s => siteName s | none => "-"} diag={if r.trace.failed.isSome then 1 else 0} ran={joinOr (r.trace.ran.map siteName)}"
+  s!"status={r.status} lost={if r.stdoutLost then 1 else 0} failed={match r.trace.failed with | some s => siteName s | none => "-"} diag={if r.trace.failed.isSome then 1 else 0} ran={joinOr (r.trace.ran.map siteName)}"
 
 def bit (s : String) : Option Bool := if s = "1" then some true else if s = "0" then some false else none
 
@@ -167,13 +168,14 @@ def step (line : String) : String :=
       | some ps => showResult v (run v c (scriptOf ps))
       | none => "bad-op"
     | _, _ => "bad-op"
-  | ["rrun", tool, flags, nf, faults] =>
-    match parseRCfg tool flags nf with
-    | some c =>
-      match parseFaults (readerSites c) faults with
-      | some ps => showRResult (runReader c (scriptOf ps))
+  | ["rrun", v, tool, flags, nf, faults] =>
+    -- a position equal to the number of sites is the exit-time flush of libc (behind `main`)
+    match parseVariant v, parseRCfg tool flags nf with
+    | some v, some c =>
+      match parseFaults (readerSites v c) faults with
+      | some ps => showRResult (runReader v c (scriptOf ps)) ++ s!" nsites={(readerSites v c).length} stdio={if printsResults c then 1 else 0}"
       | none => "bad-op"
-    | none => "bad-op"
+    | _, _ => "bad-op"
   | ["bp", v, j, kinds, calls] =>
     match parseVariant v, j.toNat?, (calls.splitOn ",").mapM parseApi with
     | some v, some j, some cs => bpFaultAt v cs j (kinds.splitOn "|")
@@ -186,10 +188,10 @@ def step (line : String) : String :=
     match parseVariant v, parseCfg tool flags nf ents with
     | some v, some c => joinOr ((program v c).map siteName)
     | _, _ => "bad-op"
-  | ["rsites", tool, flags, nf] =>
-    match parseRCfg tool flags nf with
-    | some c => joinOr ((readerSites c).map siteName)
-    | none => "bad-op"
+  | ["rsites", v, tool, flags, nf] =>
+    match parseVariant v, parseRCfg tool flags nf with
+    | some v, some c => joinOr ((readerSites v c).map siteName)
+    | _, _ => "bad-op"
   | ["monitor", crashed, exit0, diag, packer, left, same] =>
     match bit crashed, bit exit0, bit diag, bit packer, bit left, bit same with
     | some a, some b, some c, some d, some e, some f => Spec.verdict ⟨a, b, c, d, e, f⟩
